@@ -64,10 +64,10 @@ def main(which):
     outs = C.run_workers("replay_integrate", jobs, timeout=3000)
     tot = collections.Counter()
     c06_kinds = {"recordings", "module_changed", "repeat_differs", "jit_differs", "vmap_differs", "vmap_raised",
-                 "data_stimulate_differs_from_stimulate", "raised", "not_refused"}
+                 "data_stimulate_differs_from_stimulate", "data_clamp_differs_from_clamp", "raised", "not_refused"}
     c07_kinds = {"returned_state", "split_recordings", "split_returned_state", "continuation_column0", "manual_stepping_differs",
                  "raised"}
-    c08_kinds = {"recordings", "data_stimulate_differs_from_stimulate", "not_refused", "raised", "manual_stepping_differs"}
+    c08_kinds = {"recordings", "data_stimulate_differs_from_stimulate", "data_clamp_differs_from_clamp", "not_refused", "raised", "manual_stepping_differs"}
     mine = {"C06": c06_kinds, "C07": c07_kinds, "C08": c08_kinds}[which]
     for o in outs:
         for k in ("runs", "refused", "splits", "mode_runs", "manual_runs", "retried"):
